@@ -280,12 +280,15 @@ fn check_sym<T: RealNumber>(c: &mut Case, inp: &SymInput) {
     let (lam, vv) = jacobi_eig(&an1);
     let lvd = Mat::from_fn(n, n, |i, j| vv.at(i, j) * lam[j]);
     let ref_res = an1.mul(&vv).sub(&lvd).fro();
-    if !(ref_res <= 1e-12 * an1.fro() && vv.orth_err() <= 1e-12) {
+    // the reference's own residual and loss of orthogonality grow with the order; both are measured and granted
+    let cert = 1e-12 * (n as f64 / 30.0).max(1.0);
+    let ref_orth = vv.orth_err();
+    if !(ref_res <= cert * an1.fro() && ref_orth <= cert) {
         c.inconclusive("reference Jacobi eigen-solver did not certify itself");
         return;
     }
     let dmax = (0..n).map(|i| (d[i] / s - lam[i]).abs()).fold(0.0f64, f64::max);
-    c.ratio("sym.d=reference", dmax, 3.0 * tau * an1.fro(), &sg, || format!("impl {:?} vs Jacobi reference (×{:e}) {:?}", d, s, lam));
+    c.ratio("sym.d=reference", dmax, 3.0 * tau * an1.fro() + ref_res + ref_orth * an1.fro(), &sg, || format!("impl {:?} vs Jacobi reference (×{:e}) {:?}", d, s, lam));
     // behavioural features
     let lmax = lam.iter().fold(0.0f64, |m, x| m.max(x.abs()));
     let tol_rep = 1e3 * eps::<T>() * lmax;
@@ -1153,6 +1156,23 @@ both!(gen_balance, gen_balance_t, 0.35);
 both!(gen_separated, gen_separated_t, 0.35);
 both!(gen_quasitri, gen_quasitri_t, 0.3);
 
+/// the symmetric families and the random / normal general ones on orders 31..105 (beyond the ordinary bound of 30; the
+/// structured general families - companion, triangular, badly balanced - have eigenvector condition numbers that grow
+/// with the order beyond what the residual bound of the ordinary range allows, so they stay at their ordinary sizes)
+fn large(c: &mut Case) {
+    let g = c.index % 8;
+    scverif::with_big(1, || match g {
+        0 => sym_random(c),
+        1 => sym_repeated(c),
+        2 => sym_diag(c),
+        3 => sym_block(c),
+        4 => sym_rankdef(c),
+        5 => sym_special(c),
+        6 => gen_random(c),
+        _ => gen_normal(c),
+    })
+}
+
 fn main() {
     runner::main(Spec {
         property: "C02",
@@ -1179,6 +1199,7 @@ fn main() {
             Family::new("gen_balance", 800, 16000, gen_balance),
             Family::new("gen_separated", 700, 14000, gen_separated),
             Family::new("gen_quasitri", 700, 14000, gen_quasitri),
+            Family::new("large", 140, 2800, large),
         ],
         min_nontrivial: 1500,
         case_timeout_s: 120,
